@@ -385,6 +385,19 @@ func (i *interpreter) symBitop(op token.Token, k types.BasicKind, x, y value) va
 	}
 	// both symbolic: only disjoint-range OR supported
 	ux, uy := i.unsignedTerm(x, k), i.unsignedTerm(y, k)
+	if op == token.AND && ux.Hi != nil && uy.Hi != nil {
+		// sound over-approximation: r = x & y satisfies 0 <= r <= x and r <= y (used by time.Time's monotonic-bit tests,
+		// where the interval alone decides the later mask test)
+		i.m.fresh++
+		hi := ux.Hi
+		if uy.Hi.Cmp(hi) < 0 {
+			hi = uy.Hi
+		}
+		r := C.Var(fmt.Sprintf("and!%d", i.m.fresh), big.NewInt(0), hi)
+		i.m.assertPC(C.And(C.Le(r, ux), C.Le(r, uy)))
+		i.m.Approx++
+		return i.wrapK(r, k)
+	}
 	if op == token.OR || op == token.XOR {
 		if disjointBits(ux, uy) || disjointBits(uy, ux) {
 			return i.wrapK(C.Add(ux, uy), k)
